@@ -93,8 +93,9 @@ Proof. exact elements_agree. Qed.
 (* THE LIST-LEVEL ROUND TRIP FOR EVERY OPTION RECORD (compression on or off,
    any line length, precision, column): for lists of int32/int64/char values,
    true/false/nil/inf, strings and quoted symbols (goodc: the FULL int32/int64
-   range since the range_step_fits fix; strings/symbols/chars without '.' -
-   finding D28 -; MIDI, colours; with the lossless option every finite float
+   range since the range_step_fits fix; strings and quoted symbols
+   without two dots in a row (sdotsv; three in a row are the finding D28,
+   ellipsis-in-string-before-range), every character but '.'; MIDI, colours; with the lossless option every finite float
    and double, printed as "<decimal> (<hexadecimal>)", in lists that do not
    contain both +0.0 and -0.0 of one type (nozmix: finding signed-zero-run, the
    classifier's predicate); symbols printed bare (identifier-shaped, no reserved
@@ -142,7 +143,7 @@ Proof. exact message_roundtrip_any_nz. Qed.
    another type or equals b, and then all three functions use the unit step
    (repo commit 94686c2 made the checker agree).  What remains of the class
    range-after-array concerns hand-written text only (C10_mixed_reads_partial).
-   Outside: arrays of arrays, time tags, '.' in strings (D28), NaN/inf. *)
+   Outside: arrays of arrays, time tags (C10_timetag_...), ".." in strings (D28), NaN/inf. *)
 Theorem C10_roundtrip_any_partial : forall (dec2f dec2d : list Z -> Z) o tvs text w,
   Forall (goodtv o) tvs -> nozmix (scalars tvs) -> Z.of_nat (length (flat tvs)) < 2 ^ 31 ->
   print_arg_vals o (flat tvs) 0 = Some (text, w) ->
